@@ -974,6 +974,21 @@ Proof.
         [discriminate | destruct rs; discriminate].
 Qed.
 
+(* the eligibility decision of the code is the one the property text states *)
+Lemma gr_applies_spec : forall r nb, gr_applies r nb = spec_eligible r nb.
+Proof. intros r nb. destruct r; reflexivity. Qed.
+
+(* ... for every reason, and for every NOTIFICATION (code, subcode) in either direction: eligible
+   exactly when the N bit is negotiated and it is a Cease other than Hard Reset *)
+Theorem C10_eligibility_is_as_stated :
+  (forall r nb, gr_applies r nb = spec_eligible r nb)
+  /\ (forall (local : bool) (code sub : N) (nb : bool),
+        gr_applies (reason_of_notification local code sub) nb = nb && (code =? 6) && negb (sub =? 9)).
+Proof.
+  split; [exact gr_applies_spec|]. intros local code sub nb. unfold reason_of_notification.
+  destruct (code =? 6); [destruct (sub =? 9)|]; destruct local; destruct nb; reflexivity.
+Qed.
+
 (* (f) a hard reset, an admin shutdown, a non-Cease error (and a NOTIFICATION or hold-timer
        expiry without the N bit) never enters helper mode and retains nothing, in every
        reachable state *)
@@ -992,7 +1007,7 @@ Proof.
   { subst h'. cbn [h_step]. rewrite Hs. unfold down_of. cbv zeta. unfold not_eligible in Hne.
     destruct (h_admin_down h) eqn:Ea; [split; reflexivity|]. cbn [orb] in Hne.
     destruct (s_gr s) as [[[l rt] nb]|].
-    - apply negb_true_iff in Hne. rewrite Hne. destruct rs; cbn in Hne; try discriminate; split; reflexivity.
+    - apply negb_true_iff in Hne. rewrite <- gr_applies_spec in Hne. rewrite Hne. destruct rs; cbn in Hne; try discriminate; split; reflexivity.
     - destruct rs; try discriminate; split; reflexivity. }
   destruct Hinv as [Hgi Hp]. destruct (gi_sess h Hgi s Hs) as [_ [Hrt [Hlt _]]].
   destruct Hinv' as [_ Hp']. unfold pinv in Hp, Hp'. rewrite Hg' in Hp'.
